@@ -104,8 +104,47 @@ func (m *M) scalarPair() (string, string, *big.Int, *big.Int) {
 func genC06(m *M, budget int) {
 	m.corpusScalar("C06")
 	budget += m.events
+	hist := 0
 	for m.events < budget {
 		m.reset()
+		hist++
+		// SYSTEMATIC (own random stream): every boundary-window kind in turn, as the STORED form of an operand and as the
+		// stored form of the result of each ring operation
+		budget += m.withAux(func() {
+			w, wc := m.windowKind(hist)
+			m.class("window_walk:" + wc)
+			a := mulmod(new(big.Int).Mod(w, bigN), rInvN, bigN)
+			b := m.randBig(bigN)
+			for op := 0; op < 4; op++ {
+				m.SSetInt(0, a)
+				m.SSetInt(1, b)
+				switch op {
+				case 0:
+					m.SMul(0, 1)
+				case 1:
+					m.SSquare(0)
+				case 2:
+					m.SAdd(0, 1)
+				default:
+					m.SSub(1, 0)
+				}
+			}
+			if b.Sign() != 0 { // results
+				m.SSetInt(0, b)
+				m.SSetInt(1, mulmod(a, new(big.Int).ModInverse(b, bigN), bigN))
+				m.SMul(0, 1)
+				m.SSetInt(0, b)
+				m.SSetInt(1, new(big.Int).Mod(new(big.Int).Sub(a, b), bigN))
+				m.SAdd(0, 1)
+				m.SSetInt(0, b)
+				m.SSetInt(1, new(big.Int).Mod(new(big.Int).Sub(b, a), bigN))
+				m.SSub(0, 1)
+				if r := new(big.Int).ModSqrt(a, bigN); r != nil {
+					m.SSetInt(0, r)
+					m.SSquare(0)
+				}
+			}
+		})
 		for i := 0; i < 8; i++ {
 			ca, cb, a, b := m.scalarPair()
 			m.class("scalar:" + ca)
